@@ -12,6 +12,7 @@ import (
 
 	"github.com/glyphlang/glyph/pkg/ast"
 	"github.com/glyphlang/glyph/pkg/compiler"
+	"github.com/glyphlang/glyph/pkg/interpreter"
 	"github.com/glyphlang/glyph/pkg/server"
 	"github.com/glyphlang/glyph/pkg/web"
 	"github.com/glyphlang/glyph/pkg/websocket"
@@ -101,10 +102,15 @@ func warnInertDeclarations(module *ast.Module) {
 // the interpreter handles better than compiled code. A call the VM cannot
 // resolve counts only if the interpreter can: a function the module defines.
 // A name neither engine knows fails the same way in both.
+// The interpreter also has built-ins the VM lacks, and accepts the method
+// spelling of a built-in (s.upper() for upper(s)).
 func needsInterpreter(module *ast.Module, limitations []compiler.Limitation) []string {
 	var reasons []string
 	for _, l := range limitations {
 		defined := l.Callee == ""
+		if base := l.Callee[strings.LastIndex(l.Callee, ".")+1:]; interpreter.IsBuiltin(base) {
+			defined = true
+		}
 		for _, item := range module.Items {
 			if fn, ok := item.(*ast.Function); ok && fn.Name == l.Callee {
 				defined = true
